@@ -579,6 +579,26 @@ theorem gap_bounded (I D : Nat) (s0 s s' : TL) (h0 : TLInv I D s0) (hr : TReach 
     · simp [hrc] at hadv
     · simp only [hrc]; simp; omega
 
+/-- the invariant survives outages -/
+theorem ostep_inv (I D G : Nat) (s s' : TL) (h : TLInv I D s) (st : OStep I D G s s') : TLInv I D s' := by
+  cases st with
+  | base _ hb => exact timeline_step_inv I D s s' h hb
+  | outage tEnd g u h1 hg hu1 hu2 =>
+    obtain ⟨a, b, c⟩ := h
+    by_cases hd : s.due ≤ tEnd + g
+    · simp only [hd, if_true]; exact ⟨by simp, by simp, by simp; omega⟩
+    · simp only [hd, if_false]
+      exact ⟨by simp; omega, by simp; omega, by simpa using c⟩
+
+/-- C17's bound with outages, as the monitor checks it: when the key is advertised again after the node was cut off
+    until `tEnd`, that is no later than one interval plus the allowed delay after its last advertisement, or — if that
+    fell due during the outage — the catch-up time `G` after the node was back -/
+theorem gap_bounded_with_outage (I D G : Nat) (s : TL) (tEnd g u : Nat) (hg : g ≤ G) :
+    let s' : TL := { now := tEnd + g, last := tEnd + g, due := tEnd + g + u }
+    s'.last ≤ max (s.last + I + D) (tEnd + G) := by
+  simp only
+  omega
+
 /-- the legacy rule for a subsuming prefix (always its own slot) breaks the invariant: the instants of corpus case f25 -/
 theorem subsume_legacy_breaks_inv :
     TLInv 3600 300 { now := 9005, last := 5850, due := 9005 + timeBetween 3600 1803 2250 } ∧
